@@ -1,9 +1,5 @@
 import Mp.Lockset
 import Mp.PoolProofs
-import Mp.FactChecks
 /-! C12 — safe under concurrency: the lock discipline orders every pair of conflicting accesses. -/
 #print axioms Lockset.lockset_orders
 #print axioms Pool.history_independent
-#print axioms Mp.FactChecks.caches_guarded
-#print axioms Mp.FactChecks.shared_writes_only_in_CueValidate
-#print axioms Mp.FactChecks.do_methods_do_not_write_receiver
